@@ -895,6 +895,17 @@ func (s *clientSocket) _sendBuffers(volatile, forceSend bool, ackID *uint64, buf
 			s.manager.packet(packets...)
 		} else if !volatile {
 			s.sendBufferMu.Lock()
+			// The socket may have become connected after the state was read above. If so, the
+			// send buffer has already been flushed (onConnect sets the state first, then flushes
+			// under this mutex) and nothing would ever send a packet that is appended now.
+			s.stateMu.RLock()
+			connected := s.state == clientSocketConnStateConnected
+			s.stateMu.RUnlock()
+			if connected {
+				s.sendBufferMu.Unlock()
+				s.manager.packet(packets...)
+				return
+			}
 			buffers := make([]sendBufferItem, len(packets))
 			for i := range buffers {
 				buffers[i] = sendBufferItem{
